@@ -34,10 +34,17 @@ class Undecided(Exception):
 
 def unit_items(cfg, features):
     """items of the unit under a feature set (`items_if`: {feature: [items]} adds feature-gated items)"""
-    items = list(cfg["items"])
+    items = [dict(i) for i in cfg["items"]]
     for feat, extra in cfg.get("items_if", {}).items():
         if feat in features:
-            items += extra
+            items += [dict(i) for i in extra]
+    for it in items:
+        for key in list(it.keys()):
+            if key.endswith("_if"):
+                base = key[:-3]
+                for feat, val in it[key].items():
+                    if feat in features:
+                        it[base] = val
     return items
 
 
@@ -235,6 +242,9 @@ def assemble_unit(unit_name, unit_dir, cfg, extracted, prelude_files, canary=Fal
     for feat, extra in cfg.get("overlays_if", {}).items():
         if feat in features:
             ovs += extra
+    for feat, extra in cfg.get("overlays_unless", {}).items():
+        if feat not in features:
+            ovs += extra
     for ov in ovs:
         these = parse_overlay(os.path.join(unit_dir, ov))
         if ov.startswith(".."):
@@ -314,20 +324,27 @@ def assemble_unit(unit_name, unit_dir, cfg, extracted, prelude_files, canary=Fal
                 brace_line, brace_origin = out[j]
                 out[j] = (brace_line.rstrip()[:-1].rstrip(), brace_origin)
                 fsec = find("fn", cur_fn)
+                fsecs = [s_ for s_ in secs if s_.kind == "fn" and s_.args[:1] == [cur_fn]]
                 fn_first_line = j
                 # walk back to the line containing `fn NAME`
                 while fn_first_line > 0 and not re.search(r'\bfn\s+\w+', out[fn_first_line][0]):
                     fn_first_line -= 1
                 fn_start = fn_first_line
                 if fsec is not None:
-                    fsec.used = True
+                    allcl = []
+                    for fs_ in fsecs:
+                        fs_.used = True
+                        for kw, cname, cl in split_clauses(fs_.lines):
+                            allcl.append((kw, cname, cl, fs_))
+                    order = {"requires": 0, "recommends": 0, "ensures": 1, "decreases": 2}
+                    allcl.sort(key=lambda x: order.get(x[0], 1))
                     last_kw = None
-                    for kw, cname, cl in split_clauses(fsec.lines):
+                    for kw, cname, cl, fs_ in allcl:
                         first = True
                         for t, ln in cl:
                             prefix = indent + (kw + " " if (first and kw != last_kw) else "    ")
                             last_kw = kw
-                            out.append((prefix + t.strip(), {"k": "clause", "fn": cur_fn, "item": name, "kw": kw, "name": cname, "ofile": os.path.relpath(fsec.path, VERIF), "oline": ln, "first": first}))
+                            out.append((prefix + t.strip(), {"k": "clause", "fn": cur_fn, "item": name, "kw": kw, "name": cname, "ofile": os.path.relpath(fs_.path, VERIF), "oline": ln, "first": first}))
                             first = False
                 out.append((indent[:-4] + "{" if len(indent) >= 4 else "{", {"k": "gen"}))
                 hsec = find("at", cur_fn, "fn_head")
